@@ -273,8 +273,8 @@ func vc12Budget(in *c12h.Input) uint64 { return uint64(64*len(in.Data)) + 1<<20 
 
 func TestVerif_C12(t *testing.T) {
 	c12h.Run(t, &c12h.Part{
-		Name: "txmeta",
-		Rule: "ParseAnyTransactionStatusMeta + ParseTransactionStatusMetaContainer (+ getters) on mutated valid protobuf / bincode (latest, oldest) metadata (every truncation, random edits, every bincode sequence-length field set to boundary values, junk): no panic, allocation <= 64*len+1MiB, no hang",
+		Name:  "txmeta",
+		Rule:  "ParseAnyTransactionStatusMeta + ParseTransactionStatusMetaContainer (+ getters) on mutated valid protobuf / bincode (latest, oldest) metadata (every truncation, random edits, every bincode sequence-length field set to boundary values, junk): no panic, allocation <= 64*len+1MiB, no hang",
 		Seeds: vc12Seeds, Gen: vc12Gen, Exec: vc12Exec, Budget: vc12Budget,
 	})
 }
